@@ -178,28 +178,38 @@ def _work(ctx: Ctx, item):
 DUMP_UNITS = [{}, {"TEMPERATURE": "C", "ANGLE": "deg", "SPEED": "kts", "PRESSURE": "bar"}, {"TEMPERATURE": "F", "PRESSURE": "psi", "ANGLE": "deg"}]
 
 
-def dump_case(entries, items, tmpdir, exclude=(), units=0, netmap=False):
+def dump_case(entries, items, tmpdir, exclude=(), units=0, netmap=False, relative=False):
     from nmea2000.consts import PhysicalQuantities as PQ
     from nmea2000.decoder import NMEA2000Decoder
     path = os.path.join(tmpdir, "sub", "dump.jsonl")
     if os.path.exists(path):
         os.remove(path)
     # the other decoder options are varied too: what is dumped is what is returned (converted units, sender identity, hash)
-    dec = NMEA2000Decoder(dump_to_file=path, dump_pgns=list(entries), exclude_pgns=list(exclude), build_network_map=netmap,
-                          preferred_units={getattr(PQ, q): u for q, u in DUMP_UNITS[units].items()})
-    returned = []
-    for it in items:
-        try:
-            r = traffic.feed(dec, it)
-        except Exception:
-            r = None
-        if r is not None:
-            returned.append(r)
-    dec.close()
+    cwd = os.getcwd()
+    if relative:
+        # the application names the dump file relative to its working directory and changes directory later
+        os.makedirs(os.path.join(tmpdir, "elsewhere"), exist_ok=True)
+        os.chdir(tmpdir)
+    try:
+        dec = NMEA2000Decoder(dump_to_file=os.path.join("sub", "dump.jsonl") if relative else path, dump_pgns=list(entries), exclude_pgns=list(exclude),
+                              build_network_map=netmap, preferred_units={getattr(PQ, q): u for q, u in DUMP_UNITS[units].items()})
+        returned = []
+        for k, it in enumerate(items):
+            if relative and k == len(items) // 2:
+                os.chdir(os.path.join(tmpdir, "elsewhere"))
+            try:
+                r = traffic.feed(dec, it)
+            except Exception:
+                r = None
+            if r is not None:
+                returned.append(r)
+        dec.close()
+    finally:
+        os.chdir(cwd)
     nums = {e for e in entries if isinstance(e, int)}
     ids = {e for e in entries if isinstance(e, str)}
     exp = [m for m in returned if not entries or m.PGN in nums or m.id in ids]
-    case = {"dump_pgns": list(entries), "exclude": list(exclude), "units": units, "netmap": netmap, "items": [traffic.item_json(i) for i in items]}
+    case = {"dump_pgns": list(entries), "exclude": list(exclude), "units": units, "netmap": netmap, "relative": relative, "items": [traffic.item_json(i) for i in items]}
     out = []
     with open(path) as f:
         lines = f.read().split("\n")
@@ -233,9 +243,11 @@ def _dump(ctx: Ctx, item):
     try:
         entry = st.one_of(st.sampled_from(pgns), st.sampled_from(ids), st.sampled_from([60928, "isoAddressClaim", 99999, "noSuchId"]))
 
-        def one(entries, items, exclude, units, netmap):
+        def one(entries, items, exclude, units, netmap, relative):
             ctx.count()
-            res, n_exp, n_ret = dump_case(entries, items, tmpdir, exclude, units, netmap)
+            res, n_exp, n_ret = dump_case(entries, items, tmpdir, exclude, units, netmap, relative)
+            if relative:
+                ctx.klass("dump_relative_path_then_chdir")
             if units:
                 ctx.klass("dump_with_preferred_units")
             if netmap:
@@ -251,12 +263,55 @@ def _dump(ctx: Ctx, item):
             return res
         ctx.hyp(one, st.lists(entry, min_size=0, max_size=4), traffic.history(min_msgs=5, max_msgs=12, twins=True),
                 st.one_of(st.just([]), st.lists(st.one_of(st.sampled_from(pgns), st.sampled_from(ids)), min_size=1, max_size=2)),
-                st.integers(0, len(DUMP_UNITS) - 1), st.booleans(), max_examples=n, name="dump")
+                st.integers(0, len(DUMP_UNITS) - 1), st.booleans(), st.sampled_from([False, False, True]), max_examples=n, name="dump")
+    finally:
+        shutil.rmtree(tmpdir, ignore_errors=True)
+
+
+def _clients(ctx: Ctx, item=None):
+    """Dumping switched on through each gateway client, link dropped and re-established in the middle: after close() the dump file holds
+    the JSON of every delivered message that matches the dump filter, in order."""
+    from .. import aio
+    from .. import clientopts as co
+    msgs = co.standard_traffic(co.CONVERTIBLE[:4] + co.FAST[:2] + co.KEYED[:3] + co.CONVERTIBLE[:4], sources=(1, 2))
+    tmpdir = tempfile.mkdtemp(prefix="vfdumpc")
+    try:
+        for kind in aio.CLIENT_KINDS:
+            for label, entries in (("all", []), ("[127250, 'windData']", [127250, "windData"])):
+                for rc in ((), (6,)):
+                    path = os.path.join(tmpdir, f"{kind}.jsonl")
+                    if os.path.exists(path):
+                        os.remove(path)
+                    chunks = aio.render_messages(kind, msgs)
+                    bounds, n = [], 0
+                    for m in msgs:
+                        bounds.append(n)
+                        n += len(aio.render_messages(kind, [m]))
+                    got, s = aio.client_passthrough(kind, chunks, {"dump_to_file": path, "dump_pgns": list(entries)}, reconnect_before={bounds[i] for i in rc})
+                    ctx.count()
+                    ctx.nontrivial_extra += 1
+                    ctx.klass("client_dump_cases")
+                    case = {"clientopts": True, "kind": kind, "options": label, "reconnect": list(rc)}
+                    if s.outcome != "ok" or not got:
+                        ctx.report(f"C15|client-{kind}|session", f"session ended with {s.outcome}, {len(got)} messages delivered", case)
+                        continue
+                    want = [strict_loads(m.to_json()) for m in got if not entries or m.PGN in entries or m.id in entries]
+                    try:
+                        with open(path) as f:
+                            have = [strict_loads(l) for l in f.read().split("\n") if l]
+                    except Exception as e:
+                        ctx.report(f"C15|client-{kind}|dump-unreadable", f"{type(e).__name__}: {e}", case)
+                        continue
+                    if have != want:
+                        ctx.report(f"C15|client-{kind}|dump|" + ("after-reconnect" if rc else "steady"),
+                                   f"{kind} client with dump filter {label}" + (", link dropped and re-established in the middle" if rc else "")
+                                   + f": dump has {len(have)} lines, {len(want)} delivered messages match the filter", case)
     finally:
         shutil.rmtree(tmpdir, ignore_errors=True)
 
 
 def run(ctx: Ctx):
+    pmap(ctx, _clients, [None])
     db = canboat.db()
     keys = [d.key for d in db.defs if d.supported]
     n = 8 if ctx.quick else 400
@@ -264,16 +319,16 @@ def run(ctx: Ctx):
     pmap(ctx, _work, [(s, n) for s in shards if s])
     pmap(ctx, _dump, [(25 if ctx.quick else 400,)] * 16)
     ctx.notes["decodable_definitions"] = len(keys)
-    # once more in a process whose local time zone lies west of Greenwich (dates and times must not depend on it)
-    from ..common import sub_pass
-    sub_pass(ctx, [], "tz-west", {"TZ": "PST8PDT"})
 
 
 def replay(ctx: Ctx, case):
+    if case.get("clientopts"):
+        from .. import clientopts as co
+        return co.replay("C15", _clients, case)
     if "dump_pgns" in case:
         tmpdir = tempfile.mkdtemp(prefix="vfdump")
         try:
-            res, _, _ = dump_case(case["dump_pgns"], [traffic.item_from_json(i) for i in case["items"]], tmpdir, case.get("exclude", ()), case.get("units", 0), case.get("netmap", False))
+            res, _, _ = dump_case(case["dump_pgns"], [traffic.item_from_json(i) for i in case["items"]], tmpdir, case.get("exclude", ()), case.get("units", 0), case.get("netmap", False), case.get("relative", False))
         finally:
             shutil.rmtree(tmpdir, ignore_errors=True)
         return res
